@@ -15,6 +15,8 @@ def gen_scenario(rng, crash):
     ops = []
     flavour = rng.below(4)
     npay = rng.range(1, 3)
+    # amounts stay above the dust limit: a dust HTLC on a channel that has to be closed is burnt to fees whatever the
+    # restart does (the recipient may hold the preimage while the sender sees the HTLC fail) — not C10's subject
     routes = [(0, 2), (2, 0), (0, 1), (1, 2), (2, 1), (1, 0), (0, 2)]
     for _ in range(npay):
         a, b = rng.choice(routes)
@@ -48,7 +50,7 @@ def gen_scenario(rng, crash):
             ops.append("pmode %d async" % rng.below(3))
         elif r < 90:
             a, b = rng.choice([(0, 2), (2, 0), (0, 1), (1, 2), (2, 1), (1, 0)])
-            ops.append("send %d %d %d" % (a, b, rng.choice([1000000, 3000000, 250000])))
+            ops.append("send %d %d %d" % (a, b, rng.choice([1000000, 3000000, 2000000])))
         elif r < 93:
             a, b = rng.choice([(0, 1), (1, 2)])
             ops.append("disc %d %d" % (a, b))
